@@ -838,7 +838,9 @@ class Search:
                 if key in inplace and inplace[key] != o:
                     self.report("wrap:in-place", op, o, inplace[key], "bignKeyWrap with key / header inside the token buffer differs from the call on disjoint buffers")
                 inplace.setdefault(key, o)
-            elif k in ("vfy",) and nv < limit_vfy:
+            elif k in ("vfy",) and (nv < limit_vfy or (w[0] == "0") != (m["lab"] == "genuine")):
+                # full recomputation for the first `limit_vfy` calls; beyond that only where the result needs a
+                # justification (an altered input accepted, a genuine signature rejected)
                 nv += 1
                 want = py_verify(cv, self.hashf, m["oid"], m["H"], m["sig"], m["pub"])
                 if int(w[0]) != want:
@@ -975,7 +977,7 @@ def run(ctx):
                         break
                 ctx.cov["ops_" + cfg] = ctx.cov.get("ops_" + cfg, 0) + len(ops)
     # the property on the implementation alone (always evaluated: it is cheap and does not involve the model)
-    limit = 10 ** 9 if (ctx.tier == "thorough" or all_mism or not proof_ok) else 400
+    limit = 10 ** 9 if (all_mism or not proof_ok) else 2500 if ctx.tier == "thorough" else 400
     for ops, meta, out in stages:
         srch.stage(ops, meta, out, limit)
     kinds = {}
